@@ -20,6 +20,8 @@ def rnd_config(rnd, entries=("exact-primal", "exact-dual", "opt_primal", "opt_du
         c["maxit"] = rnd.choice([1, 3, 10])
     if bases and rnd.random() < 0.3:
         c["basis"] = rnd.choice(["optimal", "random", "otherobj"])
+        if rnd.random() < 0.4:
+            c["display"] = 1       # the exact driver's diagnostics about a rejected start basis are part of what runs
     return c
 
 
@@ -105,7 +107,11 @@ def case_script(rnd, m, c):
     L += model.script_any(m, "p0", rnd)
     L += param_lines(c, "p0")
     L.append("set_precision %d" % c["prec"])
-    if c["entry"].startswith("exact"):
+    if c["entry"].startswith("exact") and rnd.random() < 0.4:
+        # the basis is already in the problem (QSload_basis) instead of being handed to the exact driver
+        L.append("load_basis p0 b0")
+        L.append(solve_line(c, "p0", "-"))
+    elif c["entry"].startswith("exact"):
         L.append(solve_line(c, "p0", "b0"))
     else:
         L.append("load_basis p0 b0")
@@ -294,6 +300,8 @@ def gen_case(prop, tier, seed, stream, k):
         if stream == "medium":
             cfg["entry"] = rnd.choice(["exact-primal", "exact-dual", "exact-dual", "opt_dual"])
             cfg["maxit"] = None
+        if stream in ("knife", "knife-x", "boxed") and rnd.random() < 0.5:
+            cfg["display"] = 1          # the diagnostics of rejected candidate bases are part of what runs (and has crashed before)
         if stream in ("knife", "knife-x") and rnd.random() < 0.6:
             cfg["entry"] = rnd.choice(["exact-primal", "exact-dual"])
             cfg["maxit"] = None
